@@ -23,7 +23,10 @@ func TestVerifReproC18LockLeak(t *testing.T) {
 			t.Fatalf("holder Lock: %v", err)
 		}
 		// member b: the deadline strikes while the acquire transaction is in flight
-		mb.(*mutex).timeout = time.Duration(200+try%40*50) * time.Microsecond
+		bto := time.Duration(200+try%40*50) * time.Microsecond
+		if !vfSetTimeout(mb, bto) {
+			t.Skip("the request timeout of a Mutex object cannot be located")
+		}
 		errB := mb.Lock()
 		if errB == nil {
 			t.Fatalf("two holders")
@@ -36,11 +39,11 @@ func TestVerifReproC18LockLeak(t *testing.T) {
 			continue // the deadline struck before the transaction was sent, or after it (clean failure)
 		}
 		// nobody holds the lock now; b's acquisition FAILED; yet member c cannot get it
-		mc.(*mutex).timeout = 3 * time.Second
+		vfSetTimeout(mc, 3*time.Second)
 		t0 := time.Now()
 		errC := mc.Lock()
 		t.Logf("try %d: b.Lock(timeout %v) failed with %q; a unlocked; etcd still holds %v; c.Lock(timeout 3s) => %v after %v",
-			try, mb.(*mutex).timeout, errB, keys, errC, time.Since(t0).Round(time.Millisecond))
+			try, bto, errB, keys, errC, time.Since(t0).Round(time.Millisecond))
 		if errC == nil {
 			t.Fatalf("not reproduced: c acquired")
 		}
